@@ -1,0 +1,5 @@
+//go:build !verif
+
+package document
+
+func verifPoint(point string) {}
